@@ -370,6 +370,11 @@ class Element(Node):
         if allowed_attrs is not None:
             allowed_args = [ a[1].lower().replace('-','') for a in allowed_attrs]
         self.attributes={}
+        # The parent is attached last, when the element is known to be valid
+        parent = args.pop('parent', None)
+        if attributes and 'parent' in attributes:
+            attributes = dict(attributes)
+            parent = attributes.pop('parent') or parent
         # Load the attributes from the 'attributes' argument
         if attributes:
             for attr, value in attributes.items():
@@ -385,14 +390,15 @@ class Element(Node):
         else:
             for arg in args.keys():  # If any attribute is allowed
                 self.attributes[arg]=args[arg]
-        if not check_grammar:
-            return
-        # Test that all mandatory attributes have been added.
-        required = grammar.required_attributes.get(self.qname)
-        if required:
-            for r in required:
-                if self.getAttrNS(r[0],r[1]) is None:
-                    raise AttributeError( "Required attribute missing: %s in <%s>" % (r[1].lower().replace('-',''), self.tagName))
+        if check_grammar:
+            # Test that all mandatory attributes have been added.
+            required = grammar.required_attributes.get(self.qname)
+            if required:
+                for r in required:
+                    if self.getAttrNS(r[0],r[1]) is None:
+                        raise AttributeError( "Required attribute missing: %s in <%s>" % (r[1].lower().replace('-',''), self.tagName))
+        if parent is not None:
+            parent.addElement(self)
 
     def get_knownns(self, prefix):
         """ Odfpy maintains a list of known namespaces. In some cases a prefix is used, and
